@@ -380,6 +380,7 @@ def run_e1_property(prop, tier, harness_module, log=print):
         'traces_validated_against_impl': replays_ok + len(violations),
         'samples': samples or [{'note': 'no condition finished'}],
         'exhaustive': (bool(main_jobs) or e2 is not None)
+        and not meta.get('SKIPPED')
         and len(confirmed) == len(main_jobs)
         and (e2 is None or (not e2.get('untranslatable') and all(
             q['result'] == q['expect'] for q in e2['queries']))),
@@ -403,7 +404,8 @@ def run_e1_property(prop, tier, harness_module, log=print):
             'timeout_s': j.timeout} for j in jobs],
         'conditions_total': len(main_jobs),
         'conditions_confirmed': len(confirmed),
-        'conditions_inconclusive': [j.name for j in inconclusive],
+        'conditions_inconclusive': [j.name for j in inconclusive] + [
+            'skipped: ' + x for x in meta.get('SKIPPED') or []],
         'solver_time_s': round(solver_s, 2),
         'e2': None if e2 is None else {
             'engine': 'z3 (python API) string/regex theory over the live '
@@ -438,6 +440,8 @@ def run_e1_property(prop, tier, harness_module, log=print):
                     'held' % (q['name'], q['result']))
         for m in e2_errors:
             log('HARNESS-ERROR: ' + m)
+    for x in meta.get('SKIPPED') or []:
+        log('inconclusive: skipped -- %s' % x)
     for j in inconclusive:
         log('inconclusive: %s (%s) -- not counted as held' % (
             j.name, j.record['message'][:200]))
@@ -455,7 +459,8 @@ def run_e1_property(prop, tier, harness_module, log=print):
         print('VIOLATION property=%s replay=%s' % (prop, path))
     log('%s %s: %d/%d conditions confirmed over all paths, %d inconclusive, '
         '%d violations, %d paths, %d SMT queries (%.1fs solver), wall %.0fs'
-        % (prop, tier, len(confirmed), len(main_jobs), len(inconclusive),
+        % (prop, tier, len(confirmed), len(main_jobs),
+           len(inconclusive) + len(meta.get('SKIPPED') or []),
            len(violations), paths, smt, solver_s, time.time() - t0))
     if violations:
         return EXIT_VIOLATION
@@ -472,7 +477,7 @@ def harness_meta(harness_module):
         'import json, importlib\n'
         'm = importlib.import_module(%r)\n'
         'print("META " + json.dumps({k: getattr(m, k, []) for k in '
-        '("CONDITIONS", "ENCODED", "ASSUMPTIONS", "E2")}))\n' % harness_module)
+        '("CONDITIONS", "ENCODED", "ASSUMPTIONS", "E2", "SKIPPED")}))\n' % harness_module)
     p = subprocess.run([py, '-c', code], cwd=VERIF, env=child_env(
         VERIF_MODE='replay'), capture_output=True, text=True, timeout=300)
     for ln in p.stdout.splitlines():
